@@ -191,6 +191,8 @@ def frame_equal(I, a, b, seen=None):
     object graphs are followed once)"""
     if seen is None:
         seen = set()
+    if a is b:
+        return True          # the very same (immutable) value object
     if isinstance(a, (SObj, SList, SDict)):
         key = (id(a), id(b))
         if key in seen:
